@@ -25,6 +25,7 @@ type FuncSpec struct {
 	Fields   map[string]string    // assignable selector text -> Lean structure field, e.g. "p.InitialDelay" -> "p.initialDelay"
 	Consts   map[string][2]string // Go expression text -> {file, const name}: replaced by the literal found in the source
 	Calls    map[string]string    // terminal expression statements (by prefix) -> Lean result expression
+	OnlyVar  string               // when set: translate only the top-level assignments to this variable, return it
 }
 
 type trErr struct{ msg string }
@@ -50,9 +51,18 @@ var binops = map[token.Token]string{
 	token.EQL: "=", token.NEQ: "≠", token.LAND: "∧", token.LOR: "∨",
 }
 
+func squash(s string) string {
+	return strings.Join(strings.Fields(s), "")
+}
+
 func (t *tr) expr(e ast.Expr) string {
 	if s, ok := t.spec.Subst[t.text(e)]; ok {
 		return s
+	}
+	for k, v := range t.spec.Subst {
+		if squash(k) == squash(t.text(e)) {
+			return v
+		}
 	}
 	switch x := e.(type) {
 	case *ast.BasicLit:
@@ -301,7 +311,22 @@ func Translate(root string, spec *FuncSpec) (def string, err error) {
 			continue
 		}
 		t := &tr{fset: fset, spec: spec}
-		body := t.stmts(fd.Body.List, "  ")
+		list := fd.Body.List
+		if spec.OnlyVar != "" {
+			var sel []ast.Stmt
+			for _, st := range list {
+				if as, ok := st.(*ast.AssignStmt); ok && len(as.Lhs) == 1 {
+					if id, ok := as.Lhs[0].(*ast.Ident); ok && id.Name == spec.OnlyVar {
+						sel = append(sel, st)
+					}
+				}
+			}
+			if len(sel) == 0 {
+				return "", fmt.Errorf("no assignment to %s in %s", spec.OnlyVar, spec.Name)
+			}
+			list = sel
+		}
+		body := t.stmts(list, "  ")
 		return fmt.Sprintf("/-- translated from `%s` (%s.%s) -/\ndef %s %s :=\n%s\n", spec.File, spec.Recv, spec.Name, spec.LeanName, spec.LeanSig, body), nil
 	}
 	return "", fmt.Errorf("function %s.%s not found in %s", spec.Recv, spec.Name, spec.File)
